@@ -175,6 +175,9 @@ PROPS = {
         trusted_base=["only the shared record codecs are theorems (dfrle.c coder, big-endian field macros, DFTAG_SDD, DFTAG_ID/DFTAG_LD); "
                       "group records (DFdi*), Vgroup/Vdata glue, number conversion, nc* <-> SD and the legacy-file readers are checked by the "
                       "xapi engine on the implementation only (shadow copy in C as oracle)",
+                      "the life of an object over several sessions (created through SD, nc or DFSD; first data, hyperslab overwrite, appended records, attributes, dimension scales, "
+                      "compression, new variables or only reads in later SDstart(RDWR) / ncopen(NC_WRITE) / DFSDadddata sessions) is outside the Lean model: after EVERY session the engine "
+                      "reads the file through SD, nc, DFSD, the Vgroup view and the raw NDGs and compares each with the shadow copy (keys xapi-sess-*); only the DFTAG_SDD records found are sent to the model",
                       "dfrle.c limits (120/121/3/128) are integer literals in the C text: measured by gen/gen.py by running the real DFCIrle"],
         assumptions=["row lengths fit the C types: len <= INT32_MAX - 120 (DFCIrle's `i + 120 > len` is int32 arithmetic)",
                      "DFTAG_SDD: rank 1..32767, sizes 0..2^31-1, refs < 65536; DFTAG_ID/LD: int32 sizes, int16 ncomponents/interlace, uint16 tags/refs",
